@@ -8,8 +8,8 @@
        graphql-ws start / graphql-transport-ws subscribe); [carries t o]: [t] has room for [o];
     - [decode qk parse_std parse_jsi w]: what NewRequestFromHTTP resp. the socket dispatcher reads
       from envelope [w] ([fixed] = the repaired code, [pinned] = the tree as found);
-    - [respond ... t a c id o]: the response payload(s) a client gets for [o] over [t] from API [a] in a
-      session with context [c], together with the calls made into the (abstract) pipeline;
+    - [respond ... t a c id o]: the marshalled response payload(s) a client gets for [o] over [t] from API
+      [a] in a session with context [c], together with the calls made into the (abstract) pipeline;
     - [http_well_formed], [ws_well_formed]: the envelope is JSON of the right shape, with a supported
       method and content type.
 
@@ -111,29 +111,32 @@ Section C17.
   Variable execute : bool -> Schema -> exec_request Features Doc -> Z -> Resp.
   Variable run_subscription : bool -> Schema -> exec_request Features Doc -> Z -> list Resp.
   Variable pq_ext : (request -> Resp * list (event Features Ctx Doc)) -> request -> Resp * list (event Features Ctx Doc).
+  Variable marshal : Resp -> option bytes.      (* jsoniter.Marshal; None = does not marshal (HTTP 500 / no data frame) *)
   Variable build : SchemaDef -> Schema.
   Variable clone : SchemaDef -> SchemaDef.
   (** C18 ([C18_disabled_equiv]): no extensions, no effect; and the wrapper only calls its argument *)
   Hypothesis pq_no_ext : forall ex r, r_ext r = None -> pq_ext ex r = ex r.
   Hypothesis pq_ext_ext : forall ex1 ex2, (forall r, ex1 r = ex2 r) -> forall r, pq_ext ex1 r = pq_ext ex2 r.
 
-  Let resp := respond no_features parse_validate is_subscription execute run_subscription pq_ext fixed parse_std parse_jsi render.
-  Let serve := serve_graphql no_features parse_validate execute pq_ext fixed parse_std.
-  Let servews := serve_ws (Ctx := Ctx) parse_validate is_subscription execute run_subscription parse_jsi.
+  Let resp := respond no_features parse_validate is_subscription execute run_subscription pq_ext marshal fixed parse_std parse_jsi render.
+  Let serve := serve_graphql no_features parse_validate execute pq_ext marshal fixed parse_std.
+  Let servews := serve_ws (Ctx := Ctx) parse_validate is_subscription execute run_subscription marshal parse_jsi.
 
   (** ** transport_same_response: for every API (any feature function, default cost, Execute hook,
-      persisted-query storage), session context and operation that is not a subscription, any two
-      transports that can carry it produce the same response and make the same calls into the
-      pipeline (same features, same cost rule inputs, same request for the executor) *)
+      persisted-query storage), session context and operation that is not a subscription and whose
+      response marshals (C03), any two transports that can carry it deliver the same response bytes
+      and make the same calls into the pipeline (same features, same cost rule inputs, same request
+      for the executor) *)
   Theorem C17_transport_same_response : forall t1 t2 (a : api Schema Features Ctx) c id1 id2 o,
     wf_op o = true -> carries t1 o = true -> carries t2 o = true ->
     (forall j, In j (sent_json t1 o) \/ In j (sent_json t2 o) -> clean j) ->
     (forall d cost, parse_validate (a_schema a) (features_of no_features a c) (a_default_cost a) (o_query o) (o_opname o) (o_vars o) = PVOk d cost ->
                     is_subscription d (o_opname o) = false) ->
-    resp t1 a c id1 o = resp t2 a c id2 o /\ exists rs, fst (resp t1 a c id1 o) = Some rs.
+    (forall r tr, validate_execute parse_validate execute a (features_of no_features a c) (request_of o) = (r, tr) -> marshal r <> None) ->
+    resp t1 a c id1 o = resp t2 a c id2 o /\ exists body, fst (resp t1 a c id1 o) = Some [body].
   Proof.
     exact (transport_same_response Schema Features Ctx Doc Resp no_features parse_validate is_subscription execute run_subscription
-             pq_ext render parse_std parse_jsi clean std_faithful jsi_faithful render_nonempty pq_no_ext).
+             pq_ext marshal render parse_std parse_jsi clean std_faithful jsi_faithful render_nonempty pq_no_ext).
   Qed.
 
   (** subscriptions exist on the sockets only; the two socket protocols agree on every operation *)
@@ -142,7 +145,7 @@ Section C17.
     resp WsGraphqlWs a c id o = resp WsTransportWs a c id o.
   Proof.
     exact (ws_same_response Schema Features Ctx Doc Resp no_features parse_validate is_subscription execute run_subscription
-             pq_ext render parse_std parse_jsi clean std_faithful jsi_faithful render_nonempty).
+             pq_ext marshal render parse_std parse_jsi clean std_faithful jsi_faithful render_nonempty).
   Qed.
 
   (** feature plumbing: on every transport the validator and the executor get exactly
@@ -157,7 +160,7 @@ Section C17.
       end.
   Proof.
     exact (transport_features Schema Features Ctx Doc Resp no_features parse_validate is_subscription execute run_subscription
-             pq_ext render parse_std parse_jsi clean std_faithful jsi_faithful render_nonempty pq_no_ext).
+             pq_ext marshal render parse_std parse_jsi clean std_faithful jsi_faithful render_nonempty pq_no_ext).
   Qed.
 
   (** ** envelope_malformed_4xx_no_exec: bad JSON, a JSON value of the wrong shape, an unsupported
@@ -165,7 +168,7 @@ Section C17.
   Theorem C17_envelope_malformed_4xx_no_exec : forall (a : api Schema Features Ctx) c e,
     http_well_formed parse_std e = false ->
     exists code, serve a c e = (HttpError code, []) /\ (400 <= code < 500)%Z.
-  Proof. exact (malformed_http_4xx_no_exec Schema Features Ctx Doc Resp no_features parse_validate execute pq_ext parse_std). Qed.
+  Proof. exact (malformed_http_4xx_no_exec Schema Features Ctx Doc Resp no_features parse_validate execute pq_ext marshal parse_std). Qed.
 
   (** sockets: a start / subscribe message that is not well formed (or arrives before
       connection_init, or is no message at all) is ignored or closes the connection with 4400 *)
@@ -173,7 +176,7 @@ Section C17.
     (match fo with Some f => f_type f = start_type p | None => True end) ->
     di && ws_well_formed parse_jsi fo = false ->
     servews a p di hf fo = (WsNothing, []) \/ servews a p di hf fo = (WsCloses 4400, []).
-  Proof. exact (malformed_ws_no_exec Schema Features Ctx Doc Resp parse_validate is_subscription execute run_subscription parse_jsi). Qed.
+  Proof. exact (malformed_ws_no_exec Schema Features Ctx Doc Resp parse_validate is_subscription execute run_subscription marshal parse_jsi). Qed.
 
   (** ** stage 2, the clone path: an API whose schema was built from the preprocessed clone answers
       every envelope of every transport like the API built directly — given that the two schemas
@@ -186,7 +189,7 @@ Section C17.
                         servews (api_of_config build clone (with_preprocess Features Ctx SchemaDef cfg None)) p di hf fo).
   Proof.
     exact (clone_same_response Schema Features Ctx Doc Resp SchemaDef no_features parse_validate is_subscription execute run_subscription
-             pq_ext build clone parse_std parse_jsi pq_ext_ext).
+             pq_ext marshal build clone parse_std parse_jsi pq_ext_ext).
   Qed.
 End C17.
 
